@@ -13,7 +13,7 @@ from common import Case, Failure, flist, parse_flist, clist, parse_clist, call, 
 
 PID = 'C12'
 LEAN_TARGETS = ['Nitime.Props.C12']
-RULE = ('cases from one PRNG state: stable bivariate VAR models of order 1..6 (companion spectral radius 0.3..0.92), '
+RULE = ('every routine is also run in call sequences on the same argument objects (>=3 evaluations in mixed order, results scribbled over, arrays refilled in place; C12: several live analyzers read in interleaved order); cases from one PRNG state: stable bivariate VAR models of order 1..6 (companion spectral radius 0.3..0.92), '
         'with and without zeroed cross-couplings, diagonal and correlated positive-definite innovation covariances, '
         'n_freqs of both parities; covariance scales 1e-12..1e4; analyzer runs on simulated 3..4-channel data with explicit ij lists in random order, '
         'reversed pairs and the default list; distinct = distinct protocol line')
@@ -208,7 +208,7 @@ def unpack_m2(toks):
     return np.array([[arrs[0], arrs[1]], [arrs[2], arrs[3]]]).transpose(2, 0, 1)
 
 
-def judge(m, impl, clause):
+def judge_value(m, impl, clause):
     ar, gr, ts = mods()
     op = m['op']
 
@@ -332,6 +332,91 @@ def judge(m, impl, clause):
     return None
 
 
+def pair_results(data, ij, order, nf):
+    """what the analyzer must hold for these pairs, from fresh calls of the public functions"""
+    ar, gr, ts = mods()
+    out = {}
+    for (i, j) in ij:
+        o, Rxx, coef, ecov = gr.fit_model(data[i], data[j], order=order)
+        w, fx2y, fy2x, fxy, Sw = ar.granger_causality_xy(coef, ecov, n_freqs=nf)
+        out[(i, j)] = (fx2y, fy2x, fxy, Sw)
+    return out
+
+
+def sequence_judge(m, clause):
+    """pure-function behaviour on call sequences (same argument objects, >= 3 evaluations of every
+    routine in mixed order, bitwise-equal results, arguments unchanged, no aliasing, no memory keyed
+    on identity) and, for the analyzer, no state shared between live instances"""
+    import ar_seq, warnings
+    warnings.simplefilter('ignore')
+    ar, gr, ts = mods()
+    op = m['op']
+
+    def fail(sym):
+        return Failure('%s/sequence/%s' % (clause, sym), '%s: call sequence on the same argument objects: %s [op %s]' % (clause, sym, op),
+                       {'meta': m, 'clause': clause})
+    syms = []
+    if op in ('tf', 'sm', 'gc', 'gcs'):
+        a = np.array(parse_flist(m['a'])).reshape(m['P'], 2, 2)
+        cov = np.array(parse_flist(m['cov'])).reshape(2, 2) if 'cov' in m else np.array([[1.0, 0.3], [0.3, 0.8]])
+        nf = m['nf']
+        rt = {'tf': lambda: ar.transfer_function_xy(a, n_freqs=nf),
+              'sm': lambda: ar.spectral_matrix_xy(ar.transfer_function_xy(a, n_freqs=nf)[1], cov),
+              'coh': lambda: ar.coherence_from_spectral(ar.spectral_matrix_xy(ar.transfer_function_xy(a, n_freqs=nf)[1], cov)),
+              'idp': lambda: ar.interdependence_xy(ar.spectral_matrix_xy(ar.transfer_function_xy(a, n_freqs=nf)[1], cov)),
+              'gc': lambda: ar.granger_causality_xy(a, cov, n_freqs=nf)}
+        orders = {'tf': ['tf', 'gc', 'sm', 'tf', 'gc', 'idp', 'coh', 'tf', 'sm', 'gc', 'tf'],
+                  'sm': ['sm', 'tf', 'gc', 'sm', 'coh', 'gc', 'tf', 'sm', 'idp', 'gc', 'tf'],
+                  'gc': ['gc', 'gc', 'tf', 'sm', 'gc', 'tf', 'idp', 'tf', 'sm', 'coh', 'gc'],
+                  'gcs': ['idp', 'gc', 'tf', 'coh', 'gc', 'sm', 'tf', 'gc', 'tf', 'sm', 'idp']}
+        syms = ar_seq.run_schedule(rt, orders[op], [a, cov])
+        if not syms:
+            syms = ar_seq.refill_check(lambda arr, k: ar.granger_causality_xy(arr, cov, n_freqs=k), a, a * 0.5, [nf, nf + 1])
+    elif op == 'ana':
+        n, nf, order = m['nproc'], m['nf'], m['order']
+        data = np.array(parse_flist(m['data'])).reshape(n, -1)
+        allp = [(i, j) for i in range(n) for j in range(n) if i != j]
+        ijA = [tuple(p) for p in m['ij']] if m['ij'] is not None else [(i, j) for j in range(n) for i in range(j)]
+        specs = [(data, m['ij']),
+                 (data[::-1, ::-1].copy() * 0.5 + 0.01, [list(p) for p in allp]),          # overlapping pairs, other data
+                 (np.roll(data, 3, axis=1) * 2.0, [list(p) for p in allp[::2]])]
+        mk = lambda d, ij: gr.GrangerAnalyzer(ts.TimeSeries(d, sampling_rate=m['Fs']), ij=None if ij is None else [tuple(p) for p in ij],
+                                              order=order, n_freqs=nf)
+        live = [mk(d, ij) for d, ij in specs]
+        want = [pair_results(specs[0][0], ijA, order, nf),
+                pair_results(specs[1][0], allp, order, nf),
+                pair_results(specs[2][0], allp[::2], order, nf)]
+        nb = nf // 2 + 1
+
+        def check(k, attr):
+            G, w = live[k], want[k]
+            got = getattr(G, attr)
+            if attr == 'spectral_matrix':
+                if set(got.keys()) != set(w.keys()):
+                    return 'analyzer%d.spectral_matrix holds pairs that were not requested' % k
+                return None if all(ar_seq.same(np.asarray(got[q]), np.asarray(w[q][3])) for q in w) else \
+                    'analyzer%d.spectral_matrix is not its own pairs\' result' % k
+            idx = {'causality_xy': 0, 'causality_yx': 1, 'simultaneous_causality': 2}[attr]
+            exp = np.full((n, n, nb), np.nan)
+            for q in w:
+                exp[q[0], q[1]] = w[q][idx]
+            return None if ar_seq.same(exp, np.asarray(got)) else 'analyzer%d.%s differs from its own pairwise results (NaN elsewhere)' % (k, attr)
+        sched = [(0, 'causality_xy'), (1, 'causality_xy'), (0, 'causality_yx'), (2, 'spectral_matrix'), (1, 'simultaneous_causality'),
+                 (0, 'simultaneous_causality'), (0, 'spectral_matrix'), (1, 'causality_yx'), (2, 'causality_xy'), (1, 'spectral_matrix'),
+                 (0, 'causality_xy')]
+        for k, attr in sched:
+            bad = check(k, attr)
+            if bad:
+                f = Failure('%s/sequence/cross-instance-state' % clause, '%s: interleaved reads of live analyzers: %s' % (clause, bad),
+                            {'meta': m, 'clause': clause})
+                return f
+    return fail(syms[0]) if syms else None
+
+
+def judge(m, impl, clause):
+    return judge_value(m, impl, clause) or sequence_judge(m, clause)
+
+
 # ------------------------------------------------------------------ cases
 def mk_case(m, clause, cmp):
     return Case(line_of(m), run_impl(m), clause, cmp=cmp, meta=m)
@@ -354,11 +439,12 @@ def cases(rng, tier, seed):
     out = []
     n_fn = 200 if not big else 4000
     for i in range(n_fn):
-        P = int(nrng.randint(1, 7))
+        P = int(nrng.randint(1, 9))
         zero = [None, None, 'xy', 'yx', 'both'][i % 5]
         a = stable_var(nrng, P, float(nrng.uniform(0.3, 0.92)), zero)
         cov = gen_cov(nrng, 'diag' if i % 3 == 0 else 'full') * float(nrng.choice([1.0, 1.0, 1e-6, 1e-12, 1e4]))
-        nf = int(nrng.choice([8, 9, 16, 31, 64] + ([255, 1024] if big else [])))
+        # grids from 1..8 points against every order 1..8 (n_freqs//2+1 may be far below order+1), then the usual ones
+        nf = int(nrng.choice([1, 2, 3, 4, 5, 6, 7, 8]) if i % 2 else nrng.choice([8, 9, 16, 31, 64] + ([255, 1024] if big else [])))
         par = 'odd' if nf % 2 else 'even'
         base = {'P': P, 'nf': nf, 'a': aflat(a), 'zero': zero}
         out.append(mk_case(dict(base, op='tf'), 'transfer/' + par, cmp_groups('fcccc')))
